@@ -34,7 +34,7 @@ type c01Task struct {
 type c01Ev struct {
 	K string `json:"k"`           // ensure | finish | abort | tick | resolve
 	T int    `json:"t,omitempty"` // task index
-	O string `json:"o,omitempty"` // ok | err | retry | wait | waitu
+	O string `json:"o,omitempty"` // ok | err | retry | logretry | wait | waitu
 	D int64  `json:"d,omitempty"` // seconds (retry after / tick)
 }
 
@@ -45,6 +45,7 @@ type c01In struct {
 	Script []c01Ev   `json:"script,omitempty"` // explicit events (events that are not enabled are skipped)
 	Mode   string    `json:"mode,omitempty"`   // "" | "f11" (stop after the first user abort)
 	AbortP int       `json:"abortp,omitempty"` // per-mille chance of a user abort per step
+	FailDo []int     `json:"faildo,omitempty"` // tasks whose do handler fails (dynamic mode; default: chosen from Seed)
 }
 
 type c01Start struct {
@@ -74,6 +75,11 @@ type c01Step struct {
 
 const c01Timeout = 20 * time.Second
 
+// c01LogRetry tells the handler to log an ERROR line on its task (Task.Errorf) and then answer Retry
+type c01LogRetry struct{ msg string }
+
+func (e *c01LogRetry) Error() string { return e.msg }
+
 func c01Fatal(format string, a ...interface{}) {
 	fmt.Fprintf(os.Stderr, "c01 driver: "+format+"\n", a...)
 	os.Exit(3)
@@ -93,7 +99,8 @@ type c01Run struct {
 	hookOK   bool
 	fresh    map[int]bool // tasks whose Do->Doing / Undo->Undoing write was seen by the hook during this event
 	failMsg  map[int]string
-	retryAt  map[int]int64 // earliest allowed restart (driver bookkeeping, independent of Task.atTime)
+	logged   map[int][]string // ERROR lines a handler logged itself (t.Errorf) before answering Retry
+	retryAt  map[int]int64    // earliest allowed restart (driver bookkeeping, independent of Task.atTime)
 	steps    []c01Step
 	panicked bool
 	undoSeen bool
@@ -121,6 +128,12 @@ func (h *c01Run) handler(undo bool) HandlerFunc {
 		h.announce <- c01Start{i, undo, pre, ch}
 		select {
 		case err := <-ch:
+			if lr, ok := err.(*c01LogRetry); ok {
+				h.st.Lock()
+				t.Errorf("%s", lr.msg)
+				h.st.Unlock()
+				return &Retry{}
+			}
 			return err
 		case <-time.After(10 * c01Timeout):
 			c01Fatal("handler of task %d was never released", i)
@@ -131,7 +144,7 @@ func (h *c01Run) handler(undo bool) HandlerFunc {
 
 func c01New(in c01In) *c01Run {
 	h := &c01Run{in: in, idx: map[string]int{}, announce: make(chan c01Start, 64), release: map[int]chan error{},
-		hookOK: true, fresh: map[int]bool{}, failMsg: map[int]string{}, retryAt: map[int]int64{}}
+		hookOK: true, fresh: map[int]bool{}, failMsg: map[int]string{}, logged: map[int][]string{}, retryAt: map[int]int64{}}
 	h.st = New(nil)
 	h.r = NewTaskRunner(h.st)
 	h.r.AddHandler("u", h.handler(false), h.handler(true))
@@ -319,6 +332,10 @@ func (h *c01Run) finish(i int, o string, d int64, step int) {
 		if d > 0 && !aborted {
 			h.retryAt[i] = h.cur + d
 		}
+	case "logretry":
+		msg := fmt.Sprintf("warn-%d-%d", i, step)
+		h.logged[i] = append(h.logged[i], msg)
+		err = &c01LogRetry{msg}
 	case "wait":
 		err = &Wait{}
 	case "waitu":
@@ -382,12 +399,19 @@ func (h *c01Run) observe(starts []string) c01Obs {
 		if len(lines) == 0 || lines[0] != "cannot perform the following tasks:" {
 			o.Err = append(o.Err, 999)
 		} else {
+			// a failed task counts as named when a line carries the error it FAILED with; further lines of the same
+			// task carrying ERROR lines the handler logged itself earlier are accepted; anything else is the sentinel
 			for _, l := range lines[1:] {
 				ok := false
 				for i, msg := range h.failMsg {
 					if l == fmt.Sprintf("- t%d (%s)", i, msg) {
 						o.Err = append(o.Err, i)
 						ok = true
+					}
+					for _, lm := range h.logged[i] {
+						if l == fmt.Sprintf("- t%d (%s)", i, lm) {
+							ok = true
+						}
 					}
 				}
 				if !ok {
@@ -472,6 +496,11 @@ func (h *c01Run) outcome(r *vh.Rand, i int, failDo, failUndo map[int]bool, drain
 		return e
 	}
 	if (undoing && failUndo[i]) || (!undoing && failDo[i]) {
+		if !drain && len(h.logged[i]) < 2 && r.Chance(1, 3) {
+			// logs an error of its own and asks for a retry before it finally fails with another error
+			e.O = "logretry"
+			return e
+		}
 		if drain || r.Chance(2, 3) {
 			e.O = "err"
 			return e
@@ -486,7 +515,9 @@ func (h *c01Run) outcome(r *vh.Rand, i int, failDo, failUndo map[int]bool, drain
 		if r.Chance(1, 2) {
 			e.D = int64(r.Range(1, 5))
 		}
-	case x < 13:
+	case x < 11:
+		e.O = "logretry"
+	case x < 16:
 		if undoing != r.Chance(1, 10) {
 			e.O = "waitu"
 		} else {
@@ -510,7 +541,9 @@ func c01Exec(in c01In) (steps []c01Step, h *c01Run) {
 		h.r.Stop()
 	}()
 	n := len(in.Tasks)
-	stop := func() bool { return h.panicked || (in.Mode == "f11" && len(h.steps) > 0 && h.steps[len(h.steps)-1].Ev.K == "abort") }
+	stop := func() bool {
+		return h.panicked || (in.Mode == "f11" && len(h.steps) > 0 && h.steps[len(h.steps)-1].Ev.K == "abort")
+	}
 	if len(in.Script) > 0 {
 		for _, e := range in.Script {
 			if !h.enabled(e) {
@@ -538,6 +571,12 @@ func c01Exec(in c01In) (steps []c01Step, h *c01Run) {
 	}
 	if r.Chance(1, 8) {
 		failUndo[r.Intn(n)] = true
+	}
+	if len(in.FailDo) > 0 {
+		failDo = map[int]bool{}
+		for _, i := range in.FailDo {
+			failDo[i] = true
+		}
 	}
 	dirty := true // something happened since the last Ensure
 	for step := 0; step < in.Steps && !stop(); step++ {
@@ -643,6 +682,8 @@ func c01CoqEv(e c01Ev, n int) string {
 			o = "OErr"
 		case "retry":
 			o = "(ORetry " + vh.CoqZ(e.D) + ")"
+		case "logretry":
+			o = "(ORetry 0%Z)"
 		case "wait":
 			o = "(OWait false)"
 		case "waitu":
@@ -755,6 +796,74 @@ func c01Graph(r *vh.Rand, maxN int) []c01Task {
 	return tasks
 }
 
+// c01Shared: tasks that belong to several lanes (the shared prerequisites of snapd's multi-snap changes) followed by
+// one short chain per lane, at random positions of the change order; the do handlers of tasks in two (or all)
+// different lanes fail, one after the other.
+func c01Shared(r *vh.Rand, maxN int) ([]c01Task, []int) {
+	nl := r.Range(2, 3)
+	nshared := r.Range(1, 2)
+	var kinds [][]int // lanes of each logical task; index = logical id
+	var waits [][]int
+	for k := 0; k < nshared; k++ {
+		ls := []int{}
+		for _, l := range r.Perm(nl) {
+			if len(ls) < 2 || r.Chance(1, 2) {
+				ls = append(ls, l+1)
+			}
+		}
+		kinds = append(kinds, ls)
+		w := []int{}
+		if k > 0 && r.Chance(1, 2) {
+			w = append(w, k-1)
+		}
+		waits = append(waits, w)
+	}
+	var fails []int
+	for l := 1; l <= nl; l++ {
+		prev := -1
+		cl := r.Range(1, 2)
+		for j := 0; j < cl && len(kinds) < maxN; j++ {
+			id := len(kinds)
+			kinds = append(kinds, []int{l})
+			w := []int{}
+			if prev >= 0 {
+				w = append(w, prev)
+			} else if r.Chance(3, 4) {
+				w = append(w, r.Intn(nshared))
+			}
+			waits = append(waits, w)
+			prev = id
+		}
+		if prev >= 0 && (l <= 2 || r.Chance(1, 2)) {
+			fails = append(fails, prev-r.Intn(1+boolInt(prev > nshared && len(kinds[prev-1]) == 1 && kinds[prev-1][0] == l)))
+		}
+	}
+	// random change order
+	n := len(kinds)
+	perm := r.Perm(n) // perm[logical] = position
+	tasks := make([]c01Task, n)
+	for lg := 0; lg < n; lg++ {
+		t := c01Task{Lanes: kinds[lg], Waits: []int{}, Undo: !r.Chance(1, 10)}
+		for _, w := range waits[lg] {
+			t.Waits = append(t.Waits, perm[w])
+		}
+		sort.Ints(t.Waits)
+		tasks[perm[lg]] = t
+	}
+	for i := range fails {
+		fails[i] = perm[fails[i]]
+	}
+	sort.Ints(fails)
+	return tasks, fails
+}
+
+func boolInt(b bool) int {
+	if b {
+		return 1
+	}
+	return 0
+}
+
 func c01Gen(mode string) func(r *vh.Rand, tier string, n int) []c01In {
 	return func(r *vh.Rand, tier string, n int) []c01In {
 		if n <= 0 {
@@ -795,6 +904,11 @@ func c01Gen(mode string) func(r *vh.Rand, tier string, n int) []c01In {
 			maxN = 9
 		}
 		for len(out) < n {
+			if r.Chance(1, 4) {
+				ts, fails := c01Shared(r, maxN)
+				out = append(out, c01In{Tasks: ts, FailDo: fails, Seed: r.U64(), Steps: r.Range(5, 60)})
+				continue
+			}
 			in := c01In{Tasks: c01Graph(r, maxN), Seed: r.U64(), Steps: r.Range(5, 60)}
 			if r.Chance(1, 4) {
 				in.AbortP = r.Range(5, 40)
@@ -824,6 +938,12 @@ func c01Driver(prop string, mode string) {
 			if len(t.Lanes) > 1 {
 				multi = true
 			}
+		}
+		if len(in.FailDo) > 1 {
+			tags = append(tags, "shared-task-two-lane-failures")
+		}
+		if len(h.logged) > 0 {
+			tags = append(tags, "handler-logged-error-then-retry")
 		}
 		for k, v := range map[string]bool{"settled": settled, "handler-failed": failed, "user-abort": uabort, "multi-lane-task": multi,
 			"undo-started": h.undoSeen, "panic": h.panicked} {
